@@ -289,6 +289,12 @@ func pipeline(env *Env, chk *Check, res *Result, cases []Case, open map[string]F
 				kind = p[0] + ":" + p[1]
 			}
 			res.Cov["diag."+kind]++
+			if dir := os.Getenv("VERIF_DEV_KEEP_DIAG"); dir != "" && res.Cov["diag."+kind] <= 5 { // development aid
+				rec := map[string]any{"property": chk.ID, "trace_module": chk.TraceModule, "clause": b.Why, "event": b.Ev, "case": inByID[b.Case], "trace": byID[b.Case]}
+				bb, _ := json.MarshalIndent(rec, "", " ")
+				os.MkdirAll(dir, 0o755)
+				os.WriteFile(filepath.Join(dir, fmt.Sprintf("%s-diag-%s.json", chk.ID, b.Case)), bb, 0o644)
+			}
 			if chk.Amplify != nil && tag == "main" && len(follow) < 3000 {
 				follow = append(follow, chk.Amplify(env, inByID[b.Case], byID[b.Case], strings.TrimPrefix(b.Why, "diag:"))...)
 			}
